@@ -6,6 +6,7 @@ from engine import Spec
 def gen_array_case(rng, cls, maxops):
     present = [False] * 3
     size = [0] * 3
+    unspec = [False] * 3      # may hold unspecified values (non-class Array(size) / resize(size))
     ops = []
     nv = [100 + rng.below(7)]
 
@@ -20,7 +21,7 @@ def gen_array_case(rng, cls, maxops):
         k = rng.weighted([("size", 2), ("fill", 2), ("list", 2), ("ptr", 4)])
         if k == "size":
             n = rng.choice([0, 0, 1, 2, 3, 5, 8, 12])
-            ops.append([0, b, n]); size[b] = n
+            ops.append([0, b, n]); size[b] = n; unspec[b] = not cls
         elif k == "fill":
             n = rng.choice([0, 1, 2, 4, 7, 12])
             ops.append([1, b, n, val()]); size[b] = n
@@ -30,6 +31,7 @@ def gen_array_case(rng, cls, maxops):
         else:
             n = rng.choice([0, 1, 2, 3, 6, 12])
             ops.append([3, b] + [val() for _ in range(n)]); size[b] = n
+        if k != "size": unspec[b] = False
         present[b] = True
     construct(rng.below(3))
     for _ in range(rng.range(1, maxops)):
@@ -41,25 +43,30 @@ def gen_array_case(rng, cls, maxops):
             construct(rng.choice(absent))
         elif kind == "cc" and absent and live:
             b, c = rng.choice(absent), rng.choice(live)
-            ops.append([4, b, c]); present[b] = True; size[b] = size[c]
+            ops.append([4, b, c]); present[b] = True; size[b] = size[c]; unspec[b] = unspec[c]
         elif kind == "ca" and live:
             b, c = rng.choice(live), rng.choice(live)
-            ops.append([5, b, c]); size[b] = size[c]
+            ops.append([5, b, c]); size[b] = size[c]; unspec[b] = unspec[c]
         elif kind == "mc" and absent and live:
             b, c = rng.choice(absent), rng.choice(live)
-            ops.append([6, b, c]); present[b] = True; size[b] = size[c]; size[c] = 0
+            ops.append([6, b, c]); present[b] = True; size[b] = size[c]; size[c] = 0; unspec[b] = unspec[c]
         elif kind in ("ma", "swap") and len(live) >= 2:
             b, c = rng.choice(live), rng.choice(live)
             if b == c:
                 continue
-            ops.append([7 if kind == "ma" else 8, b, c]); size[b], size[c] = size[c], size[b]
+            ops.append([7 if kind == "ma" else 8, b, c]); size[b], size[c] = size[c], size[b]; unspec[b], unspec[c] = unspec[c], unspec[b]
         elif kind == "rs" and live:
             b = rng.choice(live)
             n = max(0, rng.choice([0, size[b] - 1, size[b], size[b] + 1, size[b] + 3, size[b] // 2, rng.range(0, 12)]))
+            if n > size[b] and not cls: unspec[b] = True
             ops.append([9, b, n]); size[b] = n
         elif kind == "rsf" and live:
             b = rng.choice(live)
             n = max(0, rng.choice([0, size[b] - 1, size[b], size[b] + 1, size[b] + 3, size[b] // 2, rng.range(0, 12)]))
+            if size[b] > 0 and not unspec[b] and rng.chance(1, 3):
+                # the fill value is a reference to an own element (first, last or any)
+                ops.append([15, b, n, rng.choice([0, size[b] - 1, rng.below(size[b])])]); size[b] = n
+                continue
             ops.append([10, b, n, val()]); size[b] = n
         elif kind == "wr" and live:
             b = rng.choice(live)
@@ -121,12 +128,12 @@ class C14(Spec):
         return out
 
     def nontrivial(self, lines):
-        return any(l.split()[0] in ("4", "5", "9", "10", "11") for l in lines[1:])
+        return any(l.split()[0] in ("4", "5", "9", "10", "11", "15") for l in lines[1:])
 
     def classify(self, lines):
         names = {"0": "ctor_size", "1": "ctor_fill", "2": "ctor_list", "3": "ctor_ptr", "4": "copy_ctor", "5": "copy_assign",
                  "6": "move_ctor", "7": "move_assign", "8": "swap", "9": "resize", "10": "resize_fill", "11": "write",
-                 "12": "destroy", "13": "read", "14": "front_back"}
+                 "12": "destroy", "13": "read", "14": "front_back", "15": "resize_fill_alias"}
         tags = {"op:" + names.get(l.split()[0], "?") for l in lines[1:]}
         hd = lines[0].split()
         tags.add("elem:tracked" if hd[0] == "1" else ("elem:double" if len(hd) > 2 and hd[2] == "1" else "elem:int"))
